@@ -268,6 +268,13 @@ def run(res, tier, seed, replay):
         projects += type_chain_projects(rng, quick)
         projects += long_line_faults(rng, quick)
         projects += hostile_paths(quick)
+        for body_ in ("PASTE @missing", "404 any\n  PASTE @missing", "PASTE @b", "URL /u\n    PASTE @missing"):
+            for use_ in ("GET /c\n  PASTE @a\n  200 any\n", "GET /c\n  200 any\n"):
+                for order_ in (0, 1):
+                    mac_ = "MACRO @a\n(\n  %s\n)\nMACRO @b\n(\n  PASTE @nowhere\n)\n" % body_
+                    projects.append([("a.jst", "JSIGHT 0.3\n" + (mac_ + use_ if order_ else use_ + mac_))])
+        projects.append([("a.jst", "JSIGHT 0.3\nURL /a\n(\n  INCLUDE empty.jst\n)\n"), ("empty.jst", "")])
+        projects.append([("a.jst", "JSIGHT 0.3\nINCLUDE empty.jst\nGET /a\n  200 any\n"), ("empty.jst", "")])
         from . import c07 as M7
         for items, n, what in M7.cycle_documents(rng, quick):
             projects.append([("a.jst", M7.render(items)[0])])
